@@ -24,7 +24,7 @@ import json
 DRIVERS = ["drv_c25"]
 RULE = ("one case = one generated model text (scalar variables of every variability, Real / Integer / Boolean, literal "
         "start / value / fixed, an optional sub-model instance giving dotted names, optional user functions of 0 / 1 / 3 "
-        "arguments, equations over unary, binary and n-ary operators, function calls, literals and references, optional "
+        "arguments, equations over unary, binary (plain and element-wise .+ .- .* ./ .^) and n-ary operators, function calls, literals and references, optional "
         "single-branch when-equation with reinit); non-trivial = the model has at least 2 equations and one operator of "
         "arity 1 and one of arity >= 2; distinct = distinct model text")
 TRUSTED = ["lxml parses the serialised text back to the element tree that was serialised (exercised on every case)",
@@ -41,7 +41,7 @@ ASSUMPTIONS = ["the backend's subset: scalar variables (arrays are outside the s
 
 REAL_FUNS1 = ["sin", "cos", "exp", "sqrt", "abs"]
 REAL_FUNS2 = ["max", "min", "atan2", "mod"]
-ARITH = ["+", "-", "*", "/"]
+ARITH = ["+", "-", "*", "/", ".+", ".-", ".*", "./"]   # element-wise spellings are operators of their own
 REL = ["<", "<=", ">", ">=", "==", "<>"]
 
 
@@ -85,7 +85,7 @@ class Gen:
             return "(%s %s %s)" % (self.real(d - 1), r.choice(ARITH), self.real(d - 1))
         if k < 0.62:
             self.stats["nary"] += 1
-            return "(%s ^ %s)" % (self.atom(), self.atom())
+            return "(%s %s %s)" % (self.atom(), self.rng.choice(["^", "^", ".^"]), self.atom())
         if k < 0.76:
             self.stats["unary"] += 1
             return "%s(%s)" % (r.choice(REAL_FUNS1), self.real(d - 1))
@@ -679,6 +679,8 @@ FIXED_CASES = [
     ("main", "model M parameter Real p = 2; constant Real c = 3; input Real u; output Real y; Real x(start=1); Real v; "
              "model S Real b; end S; S a; equation der(x) = -(x - u) * p / (c + 1); y = x - (v - u); "
              "v = (x + u) * (x - u) / (p * c); a.b = -x ^ 2 + sin(time); end M;"),
+    ("main", "model M Real T1; Real T2; Real T; Real ratio; Real q; equation T1 = 3; T2 = time; T = 2; "
+             "ratio = (T1 .- T2) ./ T; q = (T1 .* T2) .+ (T .^ 2) - T1 * T2 / T; end M;"),
     ("main", "model M Boolean b(start=true); Real u; Real w; equation u = time; w = max(u, 2); b = not b and (u > 1 or u <= 0) "
              "or u <> w; end M;"),
 ]
